@@ -10,11 +10,16 @@ D(m, n, r, o, h, t) == [m |-> m, n |-> n, r |-> r, orth |-> o, herm |-> h, tri |
 WellFormed(d) == /\ d.m >= 1 /\ d.n >= 1 /\ d.r >= 0 /\ d.r <= Min2(d.m, d.n)
                  /\ (d.orth => d.r = d.n /\ d.m >= d.n)
                  /\ (d.herm => d.m = d.n)
-Ops1 == {"herm", "gram", "qr", "svd", "null", "pinv", "hess", "eig"}
+Ops1 == {"herm", "gram", "qr", "svd", "null", "pinv", "hess", "eig", "lu", "tridiag", "nullL", "trunc1", "schur"}
 Enabled1(op, a) ==
   CASE op = "null" -> a.r < a.n
+    [] op = "nullL" -> a.r < a.m
     [] op = "hess" -> a.m = a.n
+    [] op = "schur" -> a.m = a.n
     [] op = "eig"  -> a.herm
+    [] op = "tridiag" -> a.herm /\ a.n >= 2
+    [] op = "lu"   -> a.r = Min2(a.m, a.n)          \* documented domain: every column of the leading block has a pivot
+    [] op = "trunc1" -> a.r >= 1
     [] OTHER -> TRUE
 (* flags that are not determined by the contract are left free (BOOLEAN)        *)
 Out1(op, a) ==
@@ -33,6 +38,19 @@ Out1(op, a) ==
                            h1 \in BOOLEAN, t1 \in BOOLEAN, o2 \in BOOLEAN,
                            h2 \in (IF a.herm THEN {TRUE} ELSE BOOLEAN), t2 \in BOOLEAN }
     [] op = "eig"  -> { << D(a.n, a.n, a.n, TRUE, h, t) >> : h \in BOOLEAN, t \in BOOLEAN }
+    (* P A = L U: L unit lower trapezoidal (full column rank), U upper trapezoidal of the rank of A, P a permutation  *)
+    [] op = "lu"   -> { << D(a.m, k, k, o1, h1, t1), D(k, a.n, a.r, o2, h2, TRUE), D(a.m, a.m, a.m, TRUE, h3, t3) >> :
+                           o1 \in BOOLEAN, h1 \in BOOLEAN, t1 \in BOOLEAN, o2 \in BOOLEAN, h2 \in BOOLEAN, h3 \in BOOLEAN, t3 \in BOOLEAN }
+    (* P A P^H = B: unitary P, Hermitian (real tridiagonal) B of the same rank                                          *)
+    [] op = "tridiag" -> { << D(a.n, a.n, a.n, TRUE, h1, t1), D(a.n, a.n, a.r, o2, TRUE, t2) >> :
+                           h1 \in BOOLEAN, t1 \in BOOLEAN, o2 \in BOOLEAN, t2 \in BOOLEAN }
+    [] op = "nullL" -> { << D(a.m, a.m - a.r, a.m - a.r, o, h, t) >> : o \in BOOLEAN, h \in BOOLEAN, t \in BOOLEAN }
+    (* leading singular triple: unit-norm left and right vectors                                                         *)
+    [] op = "trunc1" -> { << D(a.m, 1, 1, TRUE, h1, t1), D(a.n, 1, 1, TRUE, h2, t2) >> :
+                           h1 \in BOOLEAN, t1 \in BOOLEAN, h2 \in BOOLEAN, t2 \in BOOLEAN }
+    (* A = Q T Q^H whether or not the iteration converged: unitary Q, T of the rank of A                                 *)
+    [] op = "schur" -> { << D(a.n, a.n, a.n, TRUE, h1, t1), D(a.n, a.n, a.r, o2, h2, t2) >> :
+                           h1 \in BOOLEAN, t1 \in BOOLEAN, o2 \in BOOLEAN, h2 \in BOOLEAN, t2 \in BOOLEAN }
 OutMul(a, b) ==
   { << D(a.m, b.n, r, o, h, t) >> :
       r \in { x \in Max2(0, a.r + b.r - a.n)..Min2(a.r, b.r) :
@@ -48,5 +66,6 @@ ValueOK(op, a, v) ==
   CASE op = "rank" -> v.nonzero = a.r
     [] op = "svd"  -> v.nonzero = a.r /\ v.count = Min2(a.m, a.n)
     [] op = "eig"  -> v.nonzero = a.r /\ v.count = a.n
+    [] op = "det"  -> v.nonzero = (IF a.r = a.n THEN 1 ELSE 0)        \* zero iff singular
     [] OTHER -> TRUE
 =============================================================================
